@@ -88,9 +88,35 @@ def zero_value(fs: dict) -> dict:
     return {"int": 0}
 
 
+# Wire values at and just beyond the edge of what the library's value types can hold: every one is a
+# well-formed fixed-width field on the wire, so decoding must either return an entity that can be
+# written again or raise a documented error (C10) - never TypeError and friends.
+EDGES = {
+    "timedelta_i64": [86399999999999999, 86400000000000000, 86399999913600000, 86399999913599999,
+                      -86399999913600000, -86399999913600001, 2**63 - 1, -(2**63), 2**53 + 1],
+    "datetime_i64": [253402300799999, 253402300800000, 2**63 - 1, -2, -(2**63), 8589934592001, 2**53 + 1],
+    "timedelta_i32": [2**31 - 1, -(2**31)],
+    "error_code": [127, 128, 129, 200, -1, -2, 32767, -32768],
+    "float64": [0x7FF0000000000000, 0xFFF0000000000000, 0x7FF8000000000000, 0x7FF0000000000001,
+                0x8000000000000000, 0x0000000000000001],
+}
+RARE_EDGE_TYPES = ("timedelta_i64", "datetime_i64", "float64")
+
+
+def edge_types(schema: dict) -> set:
+    out = set()
+    for f in schema["fields"]:
+        if f["kind"] == "struct":
+            out |= edge_types(f["sub"])
+        elif f["ktype"] in EDGES:
+            out.add(f["ktype"])
+    return out
+
+
 class Sampler:
     def __init__(self, seed: int, profile: str = "mixed", ms_timestamps: bool = True,
-                 wire_domain: bool = False):
+                 wire_domain: bool = False, edge: int | None = None):
+        self.edge = edge            # index into EDGES: fields of a narrow-domain type take that edge value
         self.r = random.Random(seed)
         self.profile = profile
         self.ms_timestamps = ms_timestamps     # timestamps with non-zero milliseconds
@@ -164,6 +190,11 @@ class Sampler:
 
     def prim(self, kt: str, legacy: bool) -> dict:
         r = self.r
+        if self.edge is not None and kt in EDGES:
+            e = EDGES[kt][self.edge % len(EDGES[kt])]
+            if kt == "float64":
+                return {"f64": [e >> 63, (e >> 52) & 2047, [(e >> i) & 1 for i in range(52)]]}
+            return aint(e)
         if kt in INT_RANGES:
             return aint(self._int_in(*INT_RANGES[kt]))
         if kt == "timedelta_i64":
